@@ -6,6 +6,7 @@ import BevySyncModel.Props.C14
 import BevySyncModel.Props.C16
 import BevySyncModel.Props.C17
 import BevySyncModel.Props.C02
+import BevySyncModel.Props.C04
 import BevySyncModel.Props.C08
 import BevySyncModel.Props.C09
 import BevySyncModel.Props.C10
